@@ -73,6 +73,11 @@ type FunctionContext struct {
 
 	// declaringIdentCache stores declaring identifiers by object.
 	declaringIdentCache map[types.Object]*ast.Ident
+
+	// sourceCalls maps a call expression rebuilt from an assertion node (BuildExpr) to the call of the
+	// source code the node stands for, so that a node parsed again from the rebuilt expression still
+	// identifies the same call.
+	sourceCalls map[*ast.CallExpr]*ast.CallExpr
 }
 
 // FunctionConfig is meant to hold all the user set configuration for analyzing a function
@@ -113,6 +118,7 @@ func NewFunctionContext(
 		funcContracts:           funcContracts,
 		boundaryFieldEffects:    effects,
 		declaringIdentCache:     make(map[types.Object]*ast.Ident),
+		sourceCalls:             make(map[*ast.CallExpr]*ast.CallExpr),
 	}
 }
 
